@@ -3,6 +3,8 @@ Driver for C20.  One request line = one (schema, instance, path list) case, spac
 prefix notation (strings that may contain spaces are `=` followed by dot-separated code points,
 `~` is "none"):
 
+  (optionally followed by `W n str*`: value-comparison probes `//*[. = 'lit']`, answered as
+   `v<k>|M=<indices or err under the schema>|S=<indices without it>`)
   line    := ("S" | "SU" | "SB" assertion(0|1) elemdecl) schema "T" forest "Q" nq query*      (SU = schema not built: every element xs:anyType)
   schema  := nct ctype* nel elemdecl* nty (name ty)*
   ctype   := "C" name? content np particle* na attrdecl*
@@ -363,7 +365,15 @@ def answer (line : String) : String :=
                 let fl := ",".intercalate ((if dummy && starAtDoc false e then ["F20b"] else []) ++
                   (if absd then ["F20d"] else []))
                 s!"p{k}|M={showIdx m}|S={showIdx sp}|K={fl}"
-              ";".intercalate (recs ++ [c] ++ ps)
+              -- optional "W" n lit*: the value-comparison probes `//*[. = 'lit']`
+              let ws : List String :=
+                match (line.splitOn " W ").getD 1 "" |>.splitOn " " |>.filter (· ≠ "") with
+                | n :: lits => (lits.take (n.toNat?.getD 0)).filterMap decStr
+                | [] => []
+              let showV (r : Option (List Nat)) : String := match r with | some l => showIdx l | none => "err"
+              let vs := ws.zipIdx.map fun (lit, k) =>
+                s!"v{k}|M={showV (selectValEq isValid s lit 0 ann)}|S={showV (selectValEq isValid s lit 0 (clearF t))}"
+              ";".intercalate (recs ++ [c] ++ ps ++ vs)
           | _ => "bad-line-Q"
       | _ => "bad-line-T"
   | [] => "bad-line"
